@@ -17,7 +17,7 @@ THEOREMS = ["Drand.Net." + t for t in [
     ["Drand.Net.Reshare." + t for t in ['tie_broadcast_recipients', 'tie_aggregator_threshold_in_loop', 'tie_transition_skip', 'c07_registration_any_time', 'c07_registration_partial', 'c07_late_registration_counterexample', 'c07_reshare_step_progress', 'c07_transition_round_produced']] + \
     ["Drand.Net." + t for t in ["tie_scheme_put_order", "c05_failed_put_retry", "c05_last_first_counterexample"]] + \
     ["Drand.Net.Reshare." + t for t in ['sane_run', 'sane_init', 'c07_quiet_of_reachable', 'c07_told_is_punctual', 'c07_quiet_counterexample', 'c07_quiet_of_healthy',
-                                        'c07_level', 'c07_fair_tick', 'c07_fair_round', 'c07_chain_continues', 'c07_round_produced',
+                                        'c07_level', 'c07_fair_tick', 'c07_fair_round', 'c07_catch_progress', 'c07_chain_continues', 'c07_round_produced',
                                         'c07_no_skip', 'c07_heads_monotone']]
 TRUSTED = ["Lean 4 kernel; axioms per theorem under coverage.axioms",
            "go2lean netrules extractor: the round arithmetic and guards of broadcastNextPartial, Handler.run, Catchup, ProcessPartialBeacon, "
